@@ -10,6 +10,7 @@ the bar history, loop / clock / ids, a lender that refuses on seeded calls.
 Serves C01, C02, C04-C11 and C03. Every run evaluates every oracle; a check only
 reports its own property's violations.
 """
+import os
 import asyncio
 import collections
 import datetime
@@ -583,6 +584,10 @@ def _execute(ctx):
                         shape = None
                 except errors.Error:
                     shape = None
+                except Exception as x:
+                    if not raised_inside_basana(x):
+                        raise
+                    why = f"; repaying it right afterwards raises {type(x).__name__}"
             if shape:
                 V("C11", "largest-first", f"auto-repay {o['kind']} {o['side']} order completed by the bar at {bar_ev.when}: loans in {sym} "
                                           f"(principal, repaid) {[(str(a), r) for _, a, _, r in order]}; with the funds available when the "
@@ -804,7 +809,13 @@ def _execute(ctx):
                 r = await coro_fn()
                 ctx.trace.append((name, "ok"))
                 return True, r
-            except (errors.Error, cerrors.Error) as x:
+            except Exception as x:
+                if not isinstance(x, (errors.Error, cerrors.Error)):
+                    # an error of another kind (an assertion inside the exchange, say) is still "the call raised an
+                    # error" for C07 - provided it comes out of the code under test and not out of this harness
+                    if not raised_inside_basana(x):
+                        raise
+                    ctx.stats["api_raised_other_than_basana_error"] += 1
                 ctx.trace.append((name, "rej", type(x).__name__))
                 ctx.stats["rejected_calls"] += 1
                 if not light:
@@ -1148,6 +1159,10 @@ def _execute(ctx):
                                 shape = None          # the funds really are short now: the model's bookkeeping is not exact here
                         except errors.Error:
                             shape = None
+                        except Exception as x:
+                            if not raised_inside_basana(x):
+                                raise
+                            why = f"; repaying it right afterwards raises {type(x).__name__}"
                     if shape:
                         V("C11", "largest-first", f"auto-repay order closed by cancel: loans (principal, repaid) "
                                                   f"{[(str(a), l in got) for l, a, _ in cand]}, greedy largest-first with the released "
@@ -1559,6 +1574,16 @@ def _nontrivial(prop, ctx):
     if prop == "C11":
         return p["autorepay_with_2_loans"] > 0 or s["loans_repaid"] > 0
     return s["fills"] > 0
+
+
+def raised_inside_basana(x):
+    """the innermost frame of the exception's traceback is code under test, not this harness"""
+    tb = x.__traceback__
+    if tb is None:
+        return False
+    while tb.tb_next is not None:
+        tb = tb.tb_next
+    return "/basana/" in tb.tb_frame.f_code.co_filename.replace(os.sep, "/")
 
 
 def run(tape, prop, tier):
